@@ -36,12 +36,19 @@ pub fn par_for<A: Send>(
                     .stack_size(16 << 20)
                     .spawn_scoped(s, move || {
                         let mut acc = mk(t);
+                        let rss_limit = rss_limit_mib();
                         loop {
                             if let Some(d) = deadline {
                                 if Instant::now() >= d {
                                     stopped.store(true, Ordering::Relaxed);
                                     break;
                                 }
+                            }
+                            // memory budget: stop cleanly (the run is reported as capped) instead of
+                            // being killed by the kernel
+                            if stopped.load(Ordering::Relaxed) || rss_mib() > rss_limit {
+                                stopped.store(true, Ordering::Relaxed);
+                                break;
                             }
                             let start = next.fetch_add(chunk, Ordering::Relaxed);
                             if start >= n {
@@ -72,6 +79,11 @@ pub fn par_for<A: Send>(
         processed,
         complete: processed >= n && !stopped.load(Ordering::Relaxed) || processed >= n,
     }
+}
+
+/// memory budget of one check in MiB (XSGV_RSS_LIMIT_MIB, default 16 GiB)
+pub fn rss_limit_mib() -> u64 {
+    std::env::var("XSGV_RSS_LIMIT_MIB").ok().and_then(|s| s.parse().ok()).unwrap_or(16 * 1024)
 }
 
 /// resident set size of this process in MiB
